@@ -228,8 +228,11 @@ def run(ctx):
                        'in the entry, and the deadline handler must receive '
                        'the same serial and Deferred')
             else:
-                ok = tparam is not None and (tparam in p.state.falsy) and \
-                    tterm == tparam
+                # the timer slot is the (falsy) deadline argument itself, or
+                # a falsy constant
+                ok = (tparam is not None and (tparam in p.state.falsy) and
+                      tterm == tparam) or (
+                          kind(tterm) == 'const' and not tterm[1])
                 ctx.ob('C08.D2', reg.qualname, 'no-timer-without-deadline',
                        ok, 'without a deadline the entry must hold no timer '
                        'and no timer may be started')
